@@ -111,7 +111,13 @@ pub fn digest(
         rep.samples.push(case_json(spec, r).set("case_id", J::s(case_id)));
     }
     let mut found = false;
-    for v in &r.violations {
+    // in the order of the events they are about (the online monitors and the per-step predicates
+    // append to one list; a predicate's finding about an EARLIER event must not be taken for a
+    // consequence of a known finding that an online monitor recorded for a later one); findings
+    // without an event (end-of-run checks) keep their place at the end
+    let mut ordered: Vec<&crate::world::Violation> = r.violations.iter().collect();
+    ordered.sort_by_key(|v| if v.event >= 0 { v.event as i64 } else { i64::MAX });
+    for v in ordered {
         let mut v = v.clone();
         {
             let g = r.built.world.lock();
@@ -449,7 +455,7 @@ pub fn witnesses() -> Vec<Witness> {
                 Topo::Share(2),
                 vec![pspec(Mode::PullSync, Fin::End)],
                 vec![2],
-                vec![ProbeSpec { policy: vec![React::Nothing], rest: React::Pull, pull_cap: 1000, attach: None, poke: None, feed: None, late_pulls: false, drop_talkback: false }, ProbeSpec::passive()],
+                vec![ProbeSpec { policy: vec![React::Nothing], rest: React::Pull, pull_cap: 1000, attach: None, poke: None, feed: None, only_attached: false, late_pulls: false, drop_talkback: false }, ProbeSpec::passive()],
             ),
             acts: vec![Act::Subscribe(1), Act::ProbeAct(1, React::Pull)],
         },
@@ -461,8 +467,8 @@ pub fn witnesses() -> Vec<Witness> {
                 vec![pspec(Mode::PullSync, Fin::End)],
                 vec![3],
                 vec![
-                    ProbeSpec { policy: vec![React::Nothing, React::Pull, React::Nothing], rest: React::Nothing, pull_cap: 1000, attach: None, poke: None, feed: None, late_pulls: false, drop_talkback: false },
-                    ProbeSpec { policy: vec![React::Nothing, React::Terminate], rest: React::Nothing, pull_cap: 1000, attach: None, poke: None, feed: None, late_pulls: false, drop_talkback: false },
+                    ProbeSpec { policy: vec![React::Nothing, React::Pull, React::Nothing], rest: React::Nothing, pull_cap: 1000, attach: None, poke: None, feed: None, only_attached: false, late_pulls: false, drop_talkback: false },
+                    ProbeSpec { policy: vec![React::Nothing, React::Terminate], rest: React::Nothing, pull_cap: 1000, attach: None, poke: None, feed: None, only_attached: false, late_pulls: false, drop_talkback: false },
                 ],
             ),
             acts: vec![Act::Subscribe(1), Act::ProbeAct(1, React::Pull)],
@@ -491,7 +497,7 @@ fn k3_spec() -> CaseSpec {
         Topo::Flatten(2),
         vec![pspec(Mode::Listen, Fin::End), inner1, pspec(Mode::PullSync, Fin::End)],
         vec![2, 2, 2],
-        vec![ProbeSpec { policy: vec![React::Nothing, React::Terminate], rest: React::Nothing, pull_cap: 1000, attach: None, poke: None, feed: None, late_pulls: false, drop_talkback: false }],
+        vec![ProbeSpec { policy: vec![React::Nothing, React::Terminate], rest: React::Nothing, pull_cap: 1000, attach: None, poke: None, feed: None, only_attached: false, late_pulls: false, drop_talkback: false }],
     )
 }
 
